@@ -233,34 +233,58 @@ func init() {
 			for _, fname := range []string{"messagePendingQueuePolicy.popSelected", "messagePendingQueuePolicy.popNewSelection", "roundRobinPendingQueuePolicy.Pop", "weightedFairQueueingPendingQueuePolicy.Pop"} {
 				fn := c.Fn(fname)
 				ok := false
-				forEachInstr(fn, func(in ssa.Instruction) {
-					ifi, isIf := in.(*ssa.If)
-					if !isIf {
-						return
-					}
-					b, isB := ifi.Cond.(*ssa.BinOp)
-					if !isB || b.Op != token.NEQ {
-						return
-					}
-					leaves := phiLeaves(b.X)
-					if len(leaves) == 0 {
-						return
-					}
-					for _, l := range leaves {
-						if !IsCallOf(c.Fn("pendingBaseQueue.pop"))(l.Val) {
+				// (the comparison may sit in a private helper that pops and checks: popFrom(unordered, expected) error)
+				{
+					forEachInstrDeep(c.P, fn, 1, func(in ssa.Instruction) {
+						ifi, isIf := in.(*ssa.If)
+						if !isIf {
 							return
 						}
-					}
-					// true edge returns a non-nil error
-					for _, x := range ifi.Block().Succs[0].Instrs {
-						if r, isRet := x.(*ssa.Return); isRet {
-							res := retResults(r)
-							if len(res) == 1 && !isNilConst(res[0]) {
-								ok = true
+						b, isB := ifi.Cond.(*ssa.BinOp)
+						if !isB || b.Op != token.NEQ {
+							return
+						}
+						// the removed chunk: a pop() result, possibly handed back by a private helper (popFrom(...) → q.x.pop(), err)
+						var leaves []ssa.Value
+						var expand func(v ssa.Value, d int)
+						expand = func(v ssa.Value, d int) {
+							for _, l := range phiLeaves(v) {
+								x := unconv(l.Val)
+								if d < 3 {
+									if ex, isEx := x.(*ssa.Extract); isEx {
+										if call, isCall := ex.Tuple.(*ssa.Call); isCall {
+											if rs := helperReturns(call, ex.Index); rs != nil {
+												for _, r := range rs {
+													expand(r, d+1)
+												}
+												continue
+											}
+										}
+									}
+								}
+								leaves = append(leaves, x)
 							}
 						}
-					}
-				})
+						expand(b.X, 0)
+						if len(leaves) == 0 {
+							return
+						}
+						for _, l := range leaves {
+							if !IsCallOf(c.Fn("pendingBaseQueue.pop"))(l) {
+								return
+							}
+						}
+						// true edge returns a non-nil error
+						for _, x := range ifi.Block().Succs[0].Instrs {
+							if r, isRet := x.(*ssa.Return); isRet {
+								res := retResults(r)
+								if len(res) == 1 && !isNilConst(res[0]) {
+									ok = true
+								}
+							}
+						}
+					})
+				}
 				c.Check(ok, "pop-checks-identity@"+fname, c.P.Pos(fn.Pos()), "popped != requested ⇒ error", "pop does not verify that it removed the peeked chunk")
 			}
 			// pendingQueue.pop adjusts counters only on success (C15.R4) and movePending… logs the error
